@@ -101,34 +101,38 @@ theorem ioRead_z (n : Nat) (t : Option Nat) (s : St) (hz : Z s) :
     Z (ioRead n t s).2
     ∧ (∀ e, (ioRead n t s).1 = .error e → (ioRead n t s).2.script = [] ∧ s.script = [])
     ∧ (∀ b, (ioRead n t s).1 = .ok b → (ioRead n t s).2.now = s.now)
-    ∧ (t = none → (ioRead n t s).1 ≠ .error .timeout) := by
+    ∧ (t = none → (ioRead n t s).1 ≠ .error .timeout)
+    ∧ (t.isSome = true → (ioRead n t s).1 ≠ .error .hang) := by
   unfold ioRead
   cases hs : s.script with
   | nil =>
     simp only
     cases t with
     | none =>
-      refine ⟨?_, ?_, ?_, ?_⟩
+      refine ⟨?_, ?_, ?_, ?_, ?_⟩
       · intro p hp; simp [ioFail, hs] at hp
       · intro e _; simp [ioFail, hs]
       · intro b hb; simp [ioFail] at hb
       · intro _ h; simp [ioFail] at h
+      · intro h; simp at h
     | some T =>
-      refine ⟨?_, ?_, ?_, ?_⟩
+      refine ⟨?_, ?_, ?_, ?_, ?_⟩
       · intro p hp; simp [ioFail, hs] at hp
       · intro e _; simp [ioFail, hs]
       · intro b hb; simp [ioFail] at hb
       · intro h; simp at h
+      · intro _ h; simp [ioFail] at h
   | cons p ps =>
     have hp0 : p.tick = 0 := hz p (by rw [hs]; exact List.mem_cons_self ..)
     have hle : p.tick ≤ s.now := by omega
     simp only [hle, if_true]
-    refine ⟨?_, ?_, ?_, ?_⟩
+    refine ⟨?_, ?_, ?_, ?_, ?_⟩
     · intro q hq
       simp only [ioDeliver] at hq
       exact takeHead_z n p ps (by rw [← hs]; exact hz) q hq
     · intro e he; simp [ioDeliver] at he
     · intro b _; simp [ioDeliver]
+    · intro _ h; simp [ioDeliver] at h
     · intro _ h; simp [ioDeliver] at h
 
 /-- the overall timeout of a `read_iter` cannot have expired: there is none, or it is positive
@@ -148,10 +152,10 @@ theorem noExp_start (max : Option Nat) (t : Option Nat) (s : St) (ht : t ≠ som
     | succ k => omega
 
 theorem remaining_noExp (ri : RI) (s : St) (h : NoExp ri s) : ∃ rem, remaining ri.timeout ri.t0 s.now = some rem
-    ∧ (ri.timeout = none → rem = none) := by
+    ∧ (ri.timeout = none → rem = none) ∧ (ri.timeout.isSome = true → rem.isSome = true) := by
   rcases h with h | ⟨T, hT, hpos, hnow⟩
-  · exact ⟨none, by rw [h]; rfl, fun _ => rfl⟩
-  · refine ⟨some (T - (s.now - ri.t0)), ?_, fun h => by rw [hT] at h; simp at h⟩
+  · exact ⟨none, by rw [h]; rfl, fun _ => rfl, fun h' => by rw [h] at h'; simp at h'⟩
+  · refine ⟨some (T - (s.now - ri.t0)), ?_, fun h => by rw [hT] at h; simp at h, fun _ => rfl⟩
     rw [hT]
     unfold remaining
     simp only
@@ -163,21 +167,22 @@ theorem riNext_z (ri : RI) (s : St) (hz : Z s) (ht : NoExp ri s) :
     ∧ (∀ e, (riNext ri s).1 = .err e → quietErr e = true → (riNext ri s).2.2.script = [])
     ∧ (∀ b, (riNext ri s).1 = .chunk b →
         NoExp (riNext ri s).2.1 (riNext ri s).2.2 ∧ (riNext ri s).2.1.timeout = ri.timeout)
-    ∧ (ri.timeout = none → (riNext ri s).1 ≠ .err .timeout) := by
+    ∧ (ri.timeout = none → (riNext ri s).1 ≠ .err .timeout)
+    ∧ (ri.timeout.isSome = true → (riNext ri s).1 ≠ .err .hang) := by
   unfold riNext
   split
-  · exact ⟨hz, by intro e he; simp at he, by intro b hb; simp at hb, by intro _ h; simp at h⟩
-  · obtain ⟨rem, hrem, hremn⟩ := remaining_noExp ri s ht
+  · exact ⟨hz, by intro e he; simp at he, by intro b hb; simp at hb, by intro _ h; simp at h, by intro _ h; simp at h⟩
+  · obtain ⟨rem, hrem, hremn, hrems⟩ := remaining_noExp ri s ht
     rw [hrem]
     simp only
-    obtain ⟨hz1, herr1, hok1, hnt1⟩ := ioRead_z (ri.maxRead s.chunk) rem s hz
+    obtain ⟨hz1, herr1, hok1, hnt1, hnh1⟩ := ioRead_z (ri.maxRead s.chunk) rem s hz
     cases hr : ioRead (ri.maxRead s.chunk) rem s with
     | mk res s1 =>
-      rw [hr] at hz1 herr1 hok1 hnt1
+      rw [hr] at hz1 herr1 hok1 hnt1 hnh1
       cases res with
       | error e =>
         simp only
-        refine ⟨hz1, ?_, by intro b hb; simp at hb, ?_⟩
+        refine ⟨hz1, ?_, by intro b hb; simp at hb, ?_, ?_⟩
         · intro e' he' _
           simp only [Step.err.injEq] at he'
           exact (herr1 e rfl).1
@@ -185,6 +190,10 @@ theorem riNext_z (ri : RI) (s : St) (hz : Z s) (ht : NoExp ri s) :
           simp only [Step.err.injEq] at h
           subst h
           exact hnt1 (hremn hn) rfl
+        · intro hn h
+          simp only [Step.err.injEq] at h
+          subst h
+          exact hnh1 (hrems hn) rfl
       | ok b =>
         simp only
         have hws := writeStream_side b s1
@@ -200,7 +209,7 @@ theorem riNext_z (ri : RI) (s : St) (hz : Z s) (ht : NoExp ri s) :
           cases cr with
           | error e =>
             simp only
-            refine ⟨hz2, ?_, by intro b hb; simp at hb, ?_⟩
+            refine ⟨hz2, ?_, by intro b hb; simp at hb, ?_, ?_⟩
             · intro e' he' hq
               simp only [Step.err.injEq] at he'
               subst he'
@@ -211,9 +220,14 @@ theorem riNext_z (ri : RI) (s : St) (hz : Z s) (ht : NoExp ri s) :
               subst h
               obtain ⟨x, m, hh⟩ := check_err b (writeStream b s1) .timeout (by rw [hc])
               simp at hh
+            · intro _ h
+              simp only [Step.err.injEq] at h
+              subst h
+              obtain ⟨x, m, hh⟩ := check_err b (writeStream b s1) .hang (by rw [hc])
+              simp at hh
           | ok u =>
             simp only
-            refine ⟨hz2, by intro e he; simp at he, ?_, by intro _ h; simp at h⟩
+            refine ⟨hz2, by intro e he; simp at he, ?_, by intro _ h; simp at h, by intro _ h; simp at h⟩
             intro b' _
             refine ⟨?_, trivial⟩
             rcases ht with h | ⟨T, hT, hpos, hnow0⟩
@@ -224,28 +238,30 @@ theorem riNext_z (ri : RI) (s : St) (hz : Z s) (ht : NoExp ri s) :
 theorem riTake_z : ∀ (f : Nat) (k : Option Nat) (ri : RI) (s : St) (acc : List Bytes), Z s → NoExp ri s →
     Z (riTake f k ri s acc).2
     ∧ (∀ e, (riTake f k ri s acc).1.2 = some e → quietErr e = true → (riTake f k ri s acc).2.script = [])
-    ∧ (ri.timeout = none → (riTake f k ri s acc).1.2 ≠ some .timeout) := by
+    ∧ (ri.timeout = none → (riTake f k ri s acc).1.2 ≠ some .timeout)
+    ∧ (ri.timeout.isSome = true → (riTake f k ri s acc).1.2 ≠ some .hang) := by
   intro f
   induction f with
   | zero =>
     intro k ri s acc hz _
-    refine ⟨hz, ?_, ?_⟩
+    refine ⟨hz, ?_, ?_, ?_⟩
     · intro e he hq; simp [riTake] at he; subst he; simp [quietErr] at hq
+    · intro _ h; simp [riTake] at h
     · intro _ h; simp [riTake] at h
   | succ f ih =>
     intro k ri s acc hz ht
     unfold riTake
     split
-    · exact ⟨hz, by intro e he; simp at he, by intro _ h; simp at h⟩
-    · obtain ⟨hz1, herr1, hch1, hnt1⟩ := riNext_z ri s hz ht
+    · exact ⟨hz, by intro e he; simp at he, by intro _ h; simp at h, by intro _ h; simp at h⟩
+    · obtain ⟨hz1, herr1, hch1, hnt1, hnh1⟩ := riNext_z ri s hz ht
       cases hr : riNext ri s with
       | mk st rest =>
         obtain ⟨ri', s'⟩ := rest
-        rw [hr] at hz1 herr1 hch1 hnt1
+        rw [hr] at hz1 herr1 hch1 hnt1 hnh1
         cases st with
-        | done => exact ⟨hz1, by intro e he; simp at he, by intro _ h; simp at h⟩
+        | done => exact ⟨hz1, by intro e he; simp at he, by intro _ h; simp at h, by intro _ h; simp at h⟩
         | err e =>
-          refine ⟨hz1, ?_, ?_⟩
+          refine ⟨hz1, ?_, ?_, ?_⟩
           · intro e' he' hq
             simp only [Option.some.injEq] at he'
             subst he'
@@ -254,81 +270,118 @@ theorem riTake_z : ∀ (f : Nat) (k : Option Nat) (ri : RI) (s : St) (acc : List
             simp only [Option.some.injEq] at h
             subst h
             exact hnt1 hn rfl
+          · intro hn h
+            simp only [Option.some.injEq] at h
+            subst h
+            exact hnh1 hn rfl
         | chunk b =>
           simp only
           have hri' : ri'.timeout = ri.timeout := (hch1 b rfl).2
           have := ih (k.map (· - 1)) ri' s' (acc ++ [b]) hz1 (hch1 b rfl).1
-          refine ⟨this.1, this.2.1, ?_⟩
-          intro hn
-          exact this.2.2 (by rw [hri']; exact hn)
+          refine ⟨this.1, this.2.1, ?_, ?_⟩
+          · intro hn
+            exact this.2.2.1 (by rw [hri']; exact hn)
+          · intro hn
+            exact this.2.2.2 (by rw [hri']; exact hn)
 
 theorem expectLoop_z : ∀ (f : Nat) (pats : List Pat) (buf : Bytes) (ri : RI) (s : St), Z s → NoExp ri s →
     Z (expectLoop f pats buf ri s).2
-    ∧ (∀ e, (expectLoop f pats buf ri s).1 = .error e → quietErr e = true → (expectLoop f pats buf ri s).2.script = []) := by
+    ∧ (∀ e, (expectLoop f pats buf ri s).1 = .error e → quietErr e = true → (expectLoop f pats buf ri s).2.script = [])
+    ∧ (ri.timeout = none → (expectLoop f pats buf ri s).1 ≠ .error .timeout)
+    ∧ (ri.timeout.isSome = true → (expectLoop f pats buf ri s).1 ≠ .error .hang) := by
   intro f
   induction f with
   | zero =>
     intro pats buf ri s hz _
-    exact ⟨hz, by intro e he hq; simp [expectLoop] at he; subst he; simp [quietErr] at hq⟩
+    exact ⟨hz, by intro e he hq; simp [expectLoop] at he; subst he; simp [quietErr] at hq,
+      by intro _ h; simp [expectLoop] at h, by intro _ h; simp [expectLoop] at h⟩
   | succ f ih =>
     intro pats buf ri s hz ht
     unfold expectLoop
-    obtain ⟨hz1, herr1, hch1, _⟩ := riNext_z ri s hz ht
+    obtain ⟨hz1, herr1, hch1, hnt1, hnh1⟩ := riNext_z ri s hz ht
     cases hr : riNext ri s with
     | mk st rest =>
       obtain ⟨ri', s'⟩ := rest
-      rw [hr] at hz1 herr1 hch1
+      rw [hr] at hz1 herr1 hch1 hnt1 hnh1
       cases st with
-      | done => exact ⟨hz1, by intro e he hq; simp at he; subst he; simp [quietErr] at hq⟩
+      | done => exact ⟨hz1, by intro e he hq; simp at he; subst he; simp [quietErr] at hq,
+          by intro _ h; simp at h, by intro _ h; simp at h⟩
       | err e =>
-        refine ⟨hz1, ?_⟩
-        intro e' he' hq
-        simp only [Except.error.injEq] at he'
-        subst he'
-        exact herr1 e rfl hq
+        refine ⟨hz1, ?_, ?_, ?_⟩
+        · intro e' he' hq
+          simp only [Except.error.injEq] at he'
+          subst he'
+          exact herr1 e rfl hq
+        · intro hn h
+          simp only [Except.error.injEq] at h
+          subst h
+          exact hnt1 hn rfl
+        · intro hn h
+          simp only [Except.error.injEq] at h
+          subst h
+          exact hnh1 hn rfl
       | chunk b =>
         simp only
         cases firstMatch (buf ++ b) 0 pats with
-        | some x => obtain ⟨i, a, e⟩ := x; exact ⟨hz1, by intro e he; simp at he⟩
-        | none => exact ih pats (buf ++ b) ri' s' hz1 (hch1 b rfl).1
+        | some x => obtain ⟨i, a, e⟩ := x; exact ⟨hz1, by intro e he; simp at he, by intro _ h; simp at h, by intro _ h; simp at h⟩
+        | none =>
+          have := ih pats (buf ++ b) ri' s' hz1 (hch1 b rfl).1
+          rw [(hch1 b rfl).2] at this
+          exact this
 
 theorem rupLoop_z : ∀ (f : Nat) (buf : Bytes) (ri : RI) (s : St), Z s → NoExp ri s →
     Z (rupLoop f buf ri s).2
-    ∧ (∀ e, (rupLoop f buf ri s).1 = .error e → quietErr e = true → (rupLoop f buf ri s).2.script = []) := by
+    ∧ (∀ e, (rupLoop f buf ri s).1 = .error e → quietErr e = true → (rupLoop f buf ri s).2.script = [])
+    ∧ (ri.timeout = none → (rupLoop f buf ri s).1 ≠ .error .timeout)
+    ∧ (ri.timeout.isSome = true → (rupLoop f buf ri s).1 ≠ .error .hang) := by
   intro f
   induction f with
   | zero =>
     intro buf ri s hz _
-    exact ⟨hz, by intro e he hq; simp [rupLoop] at he; subst he; simp [quietErr] at hq⟩
+    exact ⟨hz, by intro e he hq; simp [rupLoop] at he; subst he; simp [quietErr] at hq,
+      by intro _ h; simp [rupLoop] at h, by intro _ h; simp [rupLoop] at h⟩
   | succ f ih =>
     intro buf ri s hz ht
     unfold rupLoop
-    obtain ⟨hz1, herr1, hch1, _⟩ := riNext_z ri s hz ht
+    obtain ⟨hz1, herr1, hch1, hnt1, hnh1⟩ := riNext_z ri s hz ht
     cases hr : riNext ri s with
     | mk st rest =>
       obtain ⟨ri', s'⟩ := rest
-      rw [hr] at hz1 herr1 hch1
+      rw [hr] at hz1 herr1 hch1 hnt1 hnh1
       cases st with
-      | done => exact ⟨hz1, by intro e he hq; simp at he; subst he; simp [quietErr] at hq⟩
+      | done => exact ⟨hz1, by intro e he hq; simp at he; subst he; simp [quietErr] at hq,
+          by intro _ h; simp at h, by intro _ h; simp at h⟩
       | err e =>
-        refine ⟨hz1, ?_⟩
-        intro e' he' hq
-        simp only [Except.error.injEq] at he'
-        subst he'
-        exact herr1 e rfl hq
+        refine ⟨hz1, ?_, ?_, ?_⟩
+        · intro e' he' hq
+          simp only [Except.error.injEq] at he'
+          subst he'
+          exact herr1 e rfl hq
+        · intro hn h
+          simp only [Except.error.injEq] at h
+          subst h
+          exact hnt1 hn rfl
+        · intro hn h
+          simp only [Except.error.injEq] at h
+          subst h
+          exact hnh1 hn rfl
       | chunk b =>
         simp only
+        have hrec := ih (buf ++ b) ri' s' hz1 (hch1 b rfl).1
+        rw [(hch1 b rfl).2] at hrec
         cases s'.prompt with
-        | none => exact ih (buf ++ b) ri' s' hz1 (hch1 b rfl).1
+        | none => exact hrec
         | some p =>
           simp only
           cases promptEnd p (buf ++ b) with
-          | some n => exact ⟨hz1, by intro e he; simp at he⟩
-          | none => exact ih (buf ++ b) ri' s' hz1 (hch1 b rfl).1
+          | some n => exact ⟨hz1, by intro e he; simp at he, by intro _ h; simp at h, by intro _ h; simp at h⟩
+          | none => exact hrec
 
 theorem readUntilPrompt_z (p : Option Pat) (t : Option Nat) (s : St) (hz : Z s) (ht : t ≠ some 0) :
     Z (readUntilPrompt p t s).2
-    ∧ (∀ e, (readUntilPrompt p t s).1 = .error e → quietErr e = true → (readUntilPrompt p t s).2.script = []) := by
+    ∧ (∀ e, (readUntilPrompt p t s).1 = .error e → quietErr e = true → (readUntilPrompt p t s).2.script = [])
+    ∧ (t = none → (readUntilPrompt p t s).1 ≠ .error .timeout)
+    ∧ (t.isSome = true → (readUntilPrompt p t s).1 ≠ .error .hang) := by
   unfold readUntilPrompt
   cases p with
   | none => exact rupLoop_z _ _ _ _ hz (noExp_start none t s ht)
@@ -337,11 +390,13 @@ theorem readUntilPrompt_z (p : Option Pat) (t : Option Nat) (s : St) (hz : Z s) 
     have h := rupLoop_z (fuelFor { s with prompt := some (anchor p) }) []
       (riStart none t { s with prompt := some (anchor p) }) { s with prompt := some (anchor p) } hz
       (noExp_start none t _ ht)
-    exact ⟨h.1, h.2⟩
+    exact ⟨h.1, h.2.1, h.2.2.1, h.2.2.2⟩
 
 theorem readUntilTimeout_z (t : Option Nat) (s : St) (hz : Z s) (ht : t ≠ some 0) :
     Z (readUntilTimeout t s).2
-    ∧ (∀ e, (readUntilTimeout t s).1 = .error e → quietErr e = true → (readUntilTimeout t s).2.script = []) := by
+    ∧ (∀ e, (readUntilTimeout t s).1 = .error e → quietErr e = true → (readUntilTimeout t s).2.script = [])
+    ∧ (readUntilTimeout t s).1 ≠ .error .timeout
+    ∧ (t.isSome = true → (readUntilTimeout t s).1 ≠ .error .hang) := by
   unfold readUntilTimeout
   have h := riTake_z (fuelFor s) none (riStart none t s) s [] hz (noExp_start none t s ht)
   cases hr : riTake (fuelFor s) none (riStart none t s) s [] with
@@ -349,15 +404,15 @@ theorem readUntilTimeout_z (t : Option Nat) (s : St) (hz : Z s) (ht : t ≠ some
     rw [hr] at h
     obtain ⟨cs, e⟩ := res
     cases e with
-    | none => exact ⟨h.1, by intro e he; simp at he⟩
+    | none => exact ⟨h.1, by intro e he; simp at he, by simp, by intro _ h; simp at h⟩
     | some e =>
       cases e with
-      | timeout => exact ⟨h.1, by intro e he; simp at he⟩
-      | hang => exact ⟨h.1, fun e' he' hq => h.2.1 .hang rfl rfl⟩
-      | death x m => exact ⟨h.1, by intro e' he' hq; simp at he'; subst he'; simp [quietErr] at hq⟩
-      | illegal => exact ⟨h.1, by intro e' he' hq; simp at he'; subst he'; simp [quietErr] at hq⟩
-      | assertion => exact ⟨h.1, by intro e' he' hq; simp at he'; subst he'; simp [quietErr] at hq⟩
-      | fuel => exact ⟨h.1, by intro e' he' hq; simp at he'; subst he'; simp [quietErr] at hq⟩
+      | timeout => exact ⟨h.1, by intro e he; simp at he, by simp, by intro _ h; simp at h⟩
+      | hang => exact ⟨h.1, fun e' he' hq => h.2.1 .hang rfl rfl, by simp, fun hs _ => h.2.2.2 hs rfl⟩
+      | death x m => exact ⟨h.1, by intro e' he' hq; simp at he'; subst he'; simp [quietErr] at hq, by simp, by intro _ h; simp at h⟩
+      | illegal => exact ⟨h.1, by intro e' he' hq; simp at he'; subst he'; simp [quietErr] at hq, by simp, by intro _ h; simp at h⟩
+      | assertion => exact ⟨h.1, by intro e' he' hq; simp at he'; subst he'; simp [quietErr] at hq, by simp, by intro _ h; simp at h⟩
+      | fuel => exact ⟨h.1, by intro e' he' hq; simp at he'; subst he'; simp [quietErr] at hq, by simp, by intro _ h; simp at h⟩
 
 /-- `read(n)` without timeout when everything has arrived: it takes exactly `n` bytes, or the
     script did not hold that many -/
@@ -420,7 +475,7 @@ theorem read_some_z (n : Nat) (s : St) (hz : Z s) (hwf : WF s) (hc : 0 < s.chunk
         cases e with
         | some e => simp only at hh; simp only [Except.error.injEq] at hh; subst hh; rfl
         | none => simp only at hh; split at hh <;> simp at hh
-    exact hzz.2.2 rfl hres
+    exact hzz.2.2.1 rfl hres
 
 theorem writeLoop_script : ∀ (f : Nat) (buf : Bytes) (s : St), (writeLoop f buf s).script = s.script := by
   intro f
